@@ -37,11 +37,11 @@ var harnessOf = map[string]harnessSpec{
 	"C12": {"seqbfs", []string{"export_stack.go"}, false},
 	"C13": {"seqbfs", []string{"export_stack.go"}, false},
 	"C17": {"autocompact", []string{"export_stack.go"}, false},
-	"C01": {"codec", []string{"export_merged.go"}, false},
-	"C02": {"codec", []string{"export_merged.go"}, false},
+	"C01": {"codec", []string{"export_merged.go", "export_stack.go"}, false},
+	"C02": {"codec", []string{"export_merged.go", "export_stack.go"}, false},
 	"C14": {"codec", []string{"export_merged.go", "export_stack.go"}, false},
-	"C03": {"codec", []string{"export_merged.go"}, false},
-	"C11": {"codec", []string{"export_merged.go"}, false},
+	"C03": {"codec", []string{"export_merged.go", "export_stack.go"}, false},
+	"C11": {"codec", []string{"export_merged.go", "export_stack.go"}, false},
 	"C18": {"corrupt", nil, false},
 	"C19": {"sharedread", []string{"export_merged.go"}, false},
 	"C15": {"cdiff", []string{"export_stack.go"}, true},
